@@ -303,6 +303,9 @@ func c09Absent(r *ev.Run, m *dyn.Model, t *tspace.Table, p *prng.R) {
 	for _, c := range t.Cols {
 		if p.Bool() {
 			row[c.Name] = c09Value(p, c)
+			if p.Chance(1, 3) {
+				row[c.Name] = ref.Default(c) // "", 0, false, unset, empty: given all the same
+			}
 		}
 	}
 	r.Distinct("absent" + t.Name + before.String() + row.String())
@@ -333,7 +336,11 @@ func c09Absent(r *ev.Run, m *dyn.Model, t *tspace.Table, p *prng.R) {
 		return
 	}
 	for _, c := range t.Cols {
-		if _, given := row[c.Name]; given {
+		if d, given := row[c.Name]; given {
+			// a column the row gives replaces what the field held, whatever the value
+			if intClass(d) == "value" && !after[c.Name].Equal(d) {
+				r.Violation("C09/given-column-does-not-replace-field/"+c.Desc(), fmt.Sprintf("column %s given as %s, field held %s before and holds %s afterwards", c.Name, d, before[c.Name], after[c.Name]), map[string]interface{}{"text": string(text)})
+			}
 			continue
 		}
 		if !after[c.Name].Equal(before[c.Name]) {
